@@ -69,7 +69,7 @@ def main():
         ran.append("cargo test --offline --test %s   (with change)" % demo_name)
         # suite with the change (demo moved away)
         shutil.move(os.path.join(wt, "tests", demo_name + ".rs"), os.path.join(wt, demo_name + ".rs.away"))
-        rc2, o2 = sh("cargo test --workspace --offline --tests 2>&1", cwd=wt)
+        rc2, o2 = sh("cargo test --workspace --no-fail-fast --offline --tests 2>&1", cwd=wt)
         p2, f2 = suite_counts(o2)
         meta["confirmed"]["suite_with_change"] = {"passed": p2, "failed": f2}
         ran.append("cargo test --workspace --offline --tests   (with change, demo moved away)")
